@@ -54,7 +54,7 @@ type QPlan struct {
 }
 
 func (p *QPlan) Valid() bool {
-	if len(p.Groups) > 24 || len(p.Tasks) > 4 || len(p.Tasks) == 0 {
+	if len(p.Groups) > 40 || len(p.Tasks) > 4 || len(p.Tasks) == 0 {
 		return false
 	}
 	for _, g := range p.Groups {
@@ -236,7 +236,7 @@ func (r QRec) line(seq uint32) (auparse.AuditMessageType, string) {
 // GenQPlan draws a pool of message groups and per-task programs over them.
 func GenQPlan(r *core.Rng) *QPlan {
 	p := &QPlan{Seq: core.Pick(r, uint32(1), 0, 1<<32-1, r.U32())}
-	ng := r.Range(1, 8)
+	ng := r.Range(1, core.Scale(8, false))
 	// per-run pool of record types for "special first record + SYSCALL" groups:
 	// re-using a type within one run makes events share normalisation entries.
 	var specials []uint16
@@ -310,7 +310,7 @@ func GenQPlan(r *core.Rng) *QPlan {
 	nt := core.Pick(r, 1, 1, 2, 2, 3)
 	for t := 0; t < nt; t++ {
 		var ops []QOp
-		n := r.Range(1, 8)
+		n := r.Range(1, core.Scale(8, false))
 		for i := 0; i < n; i++ {
 			switch r.Weighted(50, 10, 10, 10, 8, 12) {
 			case 0:
@@ -353,7 +353,7 @@ const (
 	nQProbes
 )
 
-var qProbeNames = []string{"same_messages_coalesced_again", "resolution_after_cache_expiry", "coalesce_returned_error", "event_with_warnings",
+var qProbeNames = []string{"same_messages_coalesced_again", "resolution_after_clock_advance", "coalesce_returned_error", "event_with_warnings",
 	"execve_args_extracted", "event_with_paths", "first_Data_call_inside_coalesce", "ids_resolved_to_names", "two_or_more_tasks", "ecs_category_merged_from_syscall_norm", "garbage_group", "task_blocked_on_cache_lock"}
 
 var qFaultNames = []string{"cache_expiry_clock_jump", "repeated_call_on_same_input", "concurrent_tasks", "malformed_records"}
@@ -646,6 +646,9 @@ func ExecQPlan(p *QPlan, trace bool) *core.Result {
 					if bad := checkNames(e.ev); bad != "" {
 						viol("resolved-name-wrong", qopNames[op.K], fmt.Sprintf("%s on an event of group %d (task %d op %d): %s", qopNames[op.K], e.g, ti, oi, bad))
 					}
+					if advanced {
+						h.Rec(evQOp, int64(oi), -2, 0, 0, "")
+					}
 					got := canonEvent(e.ev, e.err)
 					if got != groups[e.g].refRes {
 						viol("resolve-outcome", qopNames[op.K], fmt.Sprintf("%s on an event of group %d (task %d op %d, clock advanced before: %v) gave\n  %s\nresolving the same event in isolation gives\n  %s", qopNames[op.K], e.g, ti, oi, advanced, got, groups[e.g].refRes))
@@ -696,6 +699,10 @@ func ExecQPlan(p *QPlan, trace bool) *core.Result {
 		case evQOp:
 			if e.B == -1 {
 				res.Probes[qpFirstDataInsideCoalesce]++
+				continue
+			}
+			if e.B == -2 {
+				res.Probes[qpResolveAfterExpiry]++
 				continue
 			}
 			nops++
